@@ -37,6 +37,10 @@ func pgStartup(version uint32, kv ...string) []byte {
 
 // winboxAuth builds a Winbox auth message from the wire description: chunks of at most 255
 // bytes, the first tagged 0x06 and later ones 0xff, carrying username 0x00 key[32] parity.
+// WinboxAuth is an independent encoder of the Winbox auth message (chunks of at most 255
+// bytes: length, tag 0x06 / 0xff, data; body = user name, 0, 32-byte key, parity).
+func WinboxAuth(user string, parity byte) []byte { return winboxAuth(user, parity) }
+
 func winboxAuth(user string, parity byte) []byte {
 	body := append([]byte(user), 0)
 	for i := 0; i < 32; i++ {
